@@ -83,9 +83,12 @@ def expand(fn: ast.AST, expr: ast.expr, depth=6, stop=()) -> ast.expr:
     e = copy.deepcopy(expr)
     for _ in range(depth):
         names = {n.id for n in ast.walk(e) if isinstance(n, ast.Name) and isinstance(n.ctx, ast.Load)}
+        # names bound inside the expression itself (comprehension variables, lambda parameters, walrus targets) are not locals
+        bound = {t.id for c in ast.walk(e) if isinstance(c, ast.comprehension) for t in ast.walk(c.target) if isinstance(t, ast.Name)}
+        bound |= {a.arg for l in ast.walk(e) if isinstance(l, ast.Lambda) for a in l.args.args + l.args.kwonlyargs}
         mp = {}
         for nm in names:
-            if nm in stop or nm in params:
+            if nm in stop or nm in params or nm in bound:
                 continue
             ds = asg.get(nm, [])
             if len(ds) == 1 and ds[0][1] is not None:
@@ -206,8 +209,13 @@ def canon_bound_text(fn: ast.AST, node: ast.expr, pm=None) -> str:
     local = set(assignments(fn)) - params
     k = 0
     e = copy.deepcopy(node)
+    import re as _re
     for x in ast.walk(e):
         if isinstance(x, ast.Name):
+            # the copy of a parameter made when a helper is read at its call site (`p__h3 = p`) is the parameter
+            m_ = _re.fullmatch(r"(.+)__h\d+", x.id)
+            if m_ and m_.group(1) in params:
+                x.id = m_.group(1)
             if x.id in mp:
                 x.id = mp[x.id]
             elif x.id in local:
@@ -228,8 +236,10 @@ def expand_at(fn: ast.AST, expr: ast.expr, at: ast.stmt, depth: int = 8, _cfg=No
         return expr
     e = copy.deepcopy(expr)
     mp = {}
+    bound = {t.id for c in ast.walk(e) if isinstance(c, ast.comprehension) for t in ast.walk(c.target) if isinstance(t, ast.Name)}
+    bound |= {a.arg for l in ast.walk(e) if isinstance(l, ast.Lambda) for a in l.args.args + l.args.kwonlyargs}
     for n in ast.walk(e):
-        if isinstance(n, ast.Name) and isinstance(n.ctx, ast.Load) and n.id not in mp:
+        if isinstance(n, ast.Name) and isinstance(n.ctx, ast.Load) and n.id not in mp and n.id not in bound:
             vals = reaching_values(fn, n.id, at, cfg)
             if len(vals) == 1 and vals[0] is not None:
                 v = vals[0]
